@@ -143,7 +143,8 @@ def cases(ctx):
     _ = pool
     for i in range(ctx.pick(400, 20000) // ctx.shard_count):
         version = ("2.0", "2.1", "2.2", None, "1.5")[i % 5]
-        yield {"version": version, "steps": histories.rich_history(rng, version, rng.choice([20, 60, 150]))}
+        yield histories.with_reply_faults(rng, {"version": version,
+                                                "steps": histories.rich_history(rng, version, rng.choice([20, 60, 150]))})
     # random long histories
     for i in range(ctx.pick(300, 8000) // ctx.shard_count):
         version = ("2.0", "2.1", "2.2", "2.2", "1.5")[i % 5]
